@@ -53,12 +53,17 @@ func (m *Mint) checkInvoicePaid(ctx context.Context, quoteId string) {
 	case invoice := <-updateChan:
 		if invoice.Settled {
 			m.logInfof("received update from invoice sub. Invoice for mint quote '%v' is PAID", mintQuote.Id)
-			mintQuote.State = nut04.Paid
-			if err := m.db.UpdateMintQuoteState(mintQuote.Id, mintQuote.State); err != nil {
+			// only mark as paid if the quote is still unpaid. It could have already
+			// been set to paid (and issued) by a request checking the quote state.
+			updated, err := m.db.CompareAndSetMintQuoteState(mintQuote.Id, nut04.Unpaid, nut04.Paid)
+			if err != nil {
 				m.logErrorf("could not mark mint quote '%v' as PAID in db: %v", mintQuote.Id, err)
 			}
-			jsonQuote, _ := json.Marshal(mintQuote)
-			m.publisher.Publish(BOLT11_MINT_QUOTE_TOPIC, jsonQuote)
+			if updated {
+				mintQuote.State = nut04.Paid
+				jsonQuote, _ := json.Marshal(mintQuote)
+				m.publisher.Publish(BOLT11_MINT_QUOTE_TOPIC, jsonQuote)
+			}
 		}
 	case err := <-errChan:
 		if errors.Is(ctx.Err(), context.Canceled) {
